@@ -9,7 +9,7 @@ from vlib.runner import Inconclusive
 from vlib.shim import ShimCrash
 ID = "C20"
 LEVEL = "exploration"
-CONFIGS = {"quick": ["san"], "thorough": ["san", "san_nv", "mx_i64"]}
+CONFIGS = {"quick": ["san", "san_nv"], "thorough": ["san", "san_nv", "mx_i64"]}
 EXTRA_BUILDS = ["tsan", "tsan_noasm", "so", "so_tsan", "vg"]
 RULE = ("a probe suite (one fixed-input call of every API family, ~150 calls) is replayed on every live context after each step of random context histories over "
         "{create, preallocated create, clone, preallocated clone, randomize(seed / zero / NULL), install a correct / an incorrect / reset the SHA-256 compression "
